@@ -329,9 +329,50 @@ def r1_traversal(ctx, rule="C08.R1"):
                               "pass %s never descends into %s (a field that can contain an "
                               "expression): a call placed there is not checked by this pass"
                               % (name, short), {"pass": impl["self_ty"]})
+    n_entry = _deep_entry(ctx, rule, deep)
     ctx.analysed_units(rule, passes=[p[0] for p in passes], expression_slots=len(required_expr),
-                       statement_slots=len(required_stmt))
-    ctx.require(rule, 4 * 30)
+                       statement_slots=len(required_stmt), deep_entries=n_entry)
+    ctx.require(rule, 4 * 30 + 3)
+
+
+def _deep_entry(ctx, rule, deep):
+    """The slots above say which fields the deep walker descends into once it is inside a statement;
+    this part says that it gets inside: in Visitor<GlobalStatement> for DeepStatementVisitor every
+    variant that carries statements (a main-module statement, a FUNCTION / SUB body) is handed to the
+    walker itself (`self.visit`, receiver type DeepStatementVisitor<P>) on every non-failing path of
+    its arm - handing it only to the delegate (`self.delegate.visit`, receiver type P) checks the
+    statement but nothing nested inside it."""
+    prog = ctx.prog
+    gs = [f for f in deep if "GlobalStatement" in f.path]
+    if len(gs) != 1:
+        raise CheckError("Visitor<GlobalStatement> for DeepStatementVisitor: %d matches" % len(gs))
+    f = gs[0]
+    body = f.body
+    sws = [sw for sw in mir.enum_switches(prog, body) if sw.adt.endswith("::GlobalStatement")]
+    if len(sws) != 1:
+        raise CheckError("Visitor<GlobalStatement>::visit: no match over GlobalStatement")
+    sw = sws[0]
+    deep_calls = {b for b, t in body.calls() if (t.get("cpath") or "").endswith("::Visitor::visit")
+                  and "DeepStatementVisitor" in (t.get("self_ty") or "")}
+    failing = {b for b, t in body.calls() if (t.get("cpath") or "").endswith("FromResidual::from_residual")}
+    exits = set(body.exits())
+    n = 0
+    for variant in ("Statement", "FunctionImplementation", "SubImplementation"):
+        tgt = sw.arms.get(variant, sw.otherwise)
+        n += 1
+        if tgt is None:
+            ctx.violation(rule, "%s:DeepStatementVisitor:GlobalStatement::%s:deep-entry" % (rule, variant), f.loc,
+                          "no arm for GlobalStatement::%s" % variant, {})
+            continue
+        region = body.reachable(tgt, avoid=failing)
+        ok = bool(region & deep_calls) and body.every_path_passes(tgt, (exits & region) or exits, deep_calls | failing)
+        ctx.decide(ok, rule, "%s:DeepStatementVisitor:GlobalStatement::%s:deep-entry" % (rule, variant), f.loc,
+                   "handed to the deep walker on every non-failing path",
+                   "GlobalStatement::%s is not handed to the deep walker itself (only to the delegate, or not "
+                   "at all): PrintLinter, ForNextCounterMatch and the other passes built on DeepStatementVisitor "
+                   "no longer look inside IF / SELECT / FOR / WHILE / DO blocks of %s, so an ill-formed statement "
+                   "nested there is accepted" % (variant, "the main module" if variant == "Statement" else "that subprogram"))
+    return n
 
 
 def r2_builtin_contract(ctx, rule="C08.R2"):
